@@ -267,6 +267,9 @@ class MetadataGenerator:
             meta_type = DUnion(*types)
             if len(meta_type.types) == 1:
                 meta_type = meta_type.types[0]
+            elif not meta_type.types:
+                # Nothing but Unknown and Null was here
+                return Null if optional else Unknown
 
             if optional:
                 return DOptional(meta_type)
